@@ -1,5 +1,10 @@
 package gocql
 
+import (
+	"net"
+	"time"
+)
+
 // ---- C16 / C05: rows of system.local / system.peers turned into hosts ----
 //
 // getClusterPeerInfo feeds every peers row through hostInfoFromMap and keeps it iff isValidPeer. The row
@@ -64,4 +69,60 @@ func vh_peer_row() {
 		vAssert(validIpAddr(addr), "C16/peers/accepted-peer-has-a-usable-address")
 	}
 	vObserve("valid", isValidPeer(host))
+}
+
+// ---- the event debouncer: every event is handed to the handler exactly once, in order ----
+//
+// The handler runs in its own goroutine; with spec defer_go it runs as late as possible, i.e. after the
+// debouncer has already taken further events and flushed again. What it sees must still be the batch
+// that was flushed to it.
+var vBatches [][]frame
+
+func vDebounceHandler(fs []frame) {
+	vBatches = append(vBatches, append([]frame(nil), fs...))
+}
+
+func vstubTimerResetNop(t *time.Timer, d time.Duration) bool { return true }
+
+func vh_event_debouncer_batches() {
+	vBatches = nil
+	e := &eventDebouncer{quit: make(chan struct{}), timer: &time.Timer{}, callback: vDebounceHandler, logger: vNopLogger{}}
+	ev := []frame{
+		&statusChangeEventFrame{change: "UP", host: net.IPv4(10, 0, 0, 1), port: 9042},
+		&statusChangeEventFrame{change: "DOWN", host: net.IPv4(10, 0, 0, 2), port: 9042},
+		&topologyChangeEventFrame{change: "NEW_NODE", host: net.IPv4(10, 0, 0, 3), port: 9042},
+		&statusChangeEventFrame{change: "UP", host: net.IPv4(10, 0, 0, 2), port: 9042},
+	}
+	n := 1 + vChoose("events", len(ev))
+	var want [][]frame
+	var cur []frame
+	for i := 0; i < n; i++ {
+		e.debounce(ev[i])
+		cur = append(cur, ev[i])
+		if vBool("timer_fires_after_this_event") || i == n-1 {
+			e.mu.Lock()
+			e.flush()
+			e.mu.Unlock()
+			want = append(want, cur)
+			cur = nil
+			if vBool("handler_runs_now") {
+				vRunPending()
+			}
+		}
+	}
+	// a flush with nothing buffered starts no handler
+	e.mu.Lock()
+	e.flush()
+	e.mu.Unlock()
+	vRunPending()
+	vAssert(vEventCount("go:") == len(want), "C16/debouncer/one-handler-call-per-non-empty-flush")
+	ok := len(vBatches) == len(want)
+	for i := 0; ok && i < len(want); i++ {
+		ok = len(vBatches[i]) == len(want[i])
+		for j := 0; ok && j < len(want[i]); j++ {
+			ok = vBatches[i][j] == want[i][j]
+		}
+	}
+	vAssert(ok, "C16/debouncer/each-handler-sees-exactly-the-batch-flushed-to-it")
+	vObserve("batches", len(vBatches))
 }
